@@ -28,6 +28,7 @@ func main() {
 	mapHistories(r)
 	mapHistories2(r)
 	editors(r)
+	largeMesh(r)
 
 	r.Require("mesh3d.histories", 10)
 	r.Require("mesh3d.index_built_midway", 5)
